@@ -169,6 +169,27 @@ pub fn mechanical_pool(cs: &[Carrier]) -> (BTreeSet<String>, BTreeSet<String>) {
     (upper, lower)
 }
 
+/// All grammar sources of the quick naming space (every (role, name) pair over the curated pools on every carrier),
+/// for checks that only need the texts (C07: generate must not panic on any of them).
+pub fn naming_sources() -> Vec<String> {
+    let cs = carriers();
+    let mut out = vec![];
+    for c in &cs {
+        for (role, kind) in roles(c) {
+            let pool: Vec<&str> = if kind == RoleKind::Upper { CURATED_UPPER.to_vec() } else { CURATED_LOWER.to_vec() };
+            for name in pool.into_iter().chain(["X", "x", "_", "__x", "A1", "a_", "Zz9_", "ABC", "aBC", "X_Y", "_9", "_9a", "_9A"]) {
+                if name == "_" {
+                    continue;
+                }
+                let mut pres = c.pres.clone();
+                pres.names.insert(role.clone(), name.to_string());
+                out.push(Case::new(c.g.clone(), pres).rendered.source);
+            }
+        }
+    }
+    out
+}
+
 pub struct NamingCase {
     pub carrier: usize,
     pub renames: Vec<(String, String)>,
